@@ -9,19 +9,6 @@ open Ruint Ruint.Pow Ruint.Log Ruint.Root
 
 namespace Ruint.DrvC13
 
-/-! ### independent spec of `a^e mod m` and `m ≤ a^e` for huge `e`: most-significant-bit-first
-    square-and-multiply, with the true value tracked **saturated at `m`** instead of flags. -/
-
-partial def bitsMSB (e : Nat) (acc : List Bool) : List Bool :=
-  if e = 0 then acc else bitsMSB (e / 2) ((e % 2 == 1) :: acc)
-
-/-- `(a^e % m, min (a^e) m)`. -/
-def specPow (m a e : Nat) : Nat × Nat :=
-  (bitsMSB e []).foldl (fun (vc : Nat × Nat) b =>
-    let v := vc.1 * vc.1 % m
-    let c := min (vc.2 * vc.2) m
-    if b then (v * a % m, min (c * a) m) else (v, c)) (1 % m, min 1 m)
-
 def resNat : Res Nat → String → String
   | .ok r, tag => toHex r ++ " " ++ tag
   | .panic, _ => "panic"
@@ -94,7 +81,9 @@ def handleLog (op : String) (bits x base : Nat) (impl : String) : String × Stri
         | "clog2" => resOpt (checkedLog2 bits x e) tag
         | _ => resOpt (checkedLog10 bits x e) tag
       (m, spec)
-    | _ => ("skip", if spec = "any" then "any" else "pred:false no-estimate " ++ impl)
+    | _ => ("skip", if spec = "any" then "any"
+                    else if spec.startsWith "pred:false" then spec
+                    else "pred:false no-estimate (the model reaches the float estimate, the implementation did not report one)")
   else
     let m := match op with
       | "log" => resNat (Log.log bits x base 0) "e-"
@@ -124,6 +113,34 @@ def handleRoot (bits x k : Nat) (impl : String) : String × String :=
         else "pred:false hyp guess=" ++ toHex g ++ " floor_root=" ++ toHex s
       (m, spec)
     | _ => ("skip", "pred:false no-guess " ++ impl ++ " want " ++ toHex s)
+
+/-- signed decimal -/
+def parseInt (s : String) : Int :=
+  if s.startsWith "-" then - (parseDec (s.drop 1).toString : Int) else (parseDec s : Int)
+
+def optStr : Option Nat → String
+  | some v => "some " ++ toHex v
+  | none => "none"
+
+/-- `approx_log2` is a libm result: no model. The spec column checks the bracket
+    `bit_len − 1 ≤ result ≤ bit_len` (exact rational comparison on the decoded binary64), `-inf` for 0. -/
+def judgeAlog2 (x : Nat) (impl : String) : String :=
+  if x = 0 then (if impl = "fff0000000000000" then "pred:true" else "pred:false want -inf")
+  else
+    let b := parseHex impl
+    let sign := b / 2 ^ 63
+    let E := (b / 2 ^ 52) % 2048
+    let frac := b % 2 ^ 52
+    let n := Nat.log2 x
+    if sign != 0 || E == 2047 then "pred:false negative-or-nonfinite"
+    else
+      -- value = M * 2^(E-1075)  (M = 2^52 + frac for normal numbers; 0.0 has E = 0, frac = 0)
+      let M := if E = 0 then frac else 2 ^ 52 + frac
+      let ex := if E = 0 then 1 else E
+      -- compare M * 2^ex with n * 2^1075 and (n+1) * 2^1075
+      let v := M * 2 ^ ex
+      if n * 2 ^ 1075 ≤ v && v ≤ (n + 1) * 2 ^ 1075 then "pred:true"
+      else "pred:false want floor_log2=" ++ toHex n
 
 def handle (args : List String) (impl : String) : String × String :=
   match args with
@@ -156,6 +173,14 @@ def handle (args : List String) (impl : String) : String × String :=
     match op with
     | "log2" | "clog2" => handleLog op bits x 2 impl
     | "log10" | "clog10" => handleLog op bits x 10 impl
+    | "alog2" => ("skip", judgeAlog2 x impl)
+    | "apow2i" =>
+      let n := parseInt as
+      let spec : Option Nat :=
+        if n ≤ -2 then some 0
+        else if n ≤ 0 then (if bits = 0 then none else some 1)
+        else if n < (bits : Int) then some (2 ^ n.toNat) else none
+      (optStr (approxPow2Int bits n), optStr spec)
     | _ => ("bad-op", "bad-op")
   | _ => ("bad-op", "bad-op")
 
